@@ -109,7 +109,13 @@ func guarded(s *simdjson.Serializer, b []byte) (accepted bool, problem string, h
 	case r := <-ch:
 		return r.acc, r.p, false
 	case <-time.After(10 * time.Second):
-		return true, "HANG: Deserialize or a traversal of its result did not return within 10 s", true
+		// slow is not hung: give the same call another 50 s (loaded machine, large allocation) before calling it a hang
+		select {
+		case r := <-ch:
+			return r.acc, r.p, false
+		case <-time.After(50 * time.Second):
+			return true, "HANG: Deserialize or a traversal of its result did not return within 60 s", true
+		}
 	}
 }
 
